@@ -59,7 +59,10 @@ Init0(props) ==
     filter  |-> {},
     logrecs |-> << >>,       \* unclaimed log records
     logids  |-> {},          \* log ids handed out so far
-    expLog  |-> << >>        \* expected probe records
+    expLog  |-> << >>,       \* expected probe records
+    dhq     |-> << >>,       \* queues of the items whose drop handlers are running
+    runNo   |-> 0,           \* number of run() calls so far
+    panicked|-> FALSE
   ]
 
 Has(f, k) == k \in DOMAIN f
@@ -74,7 +77,16 @@ IdxOf(seq, P(_)) == IF \E i \in 1..Len(seq) : P(seq[i])
 (* timers                                                              *)
 (* ------------------------------------------------------------------ *)
 Deadline(tm) == TMax(tm.eff, tm.setAt)
-Pending(st) == {t \in DOMAIN st.timers : st.timers[t].s = "p"}
+\* Timer states: p pending, q expired by this run's time advance and queued for
+\* execution (no longer reachable through its key), f fired, d deleted.
+\* Between the advance at the start of a run and the execution of the callback
+\* the abstract state cannot tell p from q: "maybe expired".
+MaybeExpired(st, t) ==
+    LET tm == st.timers[t] IN
+    tm.s = "p" /\ st.inRun /\ st.runAdv /\ Le(tm.eff, st.now) /\ tm.touch # st.runNo
+Pending(st) == {t \in DOMAIN st.timers : st.timers[t].s = "p" /\ ~MaybeExpired(st, t)}
+MaybePending(st) == {t \in DOMAIN st.timers : st.timers[t].s = "p" /\ MaybeExpired(st, t)}
+Unfired(st) == {t \in DOMAIN st.timers : st.timers[t].s \in {"p", "q"}}
 Short(tm) == Lt(tm.eff, AddSecs(tm.setAt, HSecs))
 
 \* Upper bound on the iterations a follow-next_expiry loop may need for one timer
@@ -82,11 +94,14 @@ IterBound(st, tm) ==
     LET span == SubSat(tm.eff, st.now)[1] IN 2 * (span \div HSecs) + 24
 
 NexpBad(st, has, x) ==
-    LET P == Pending(st) IN
-       B(has # (P # {}), "C09", "next_expiry None/Some disagrees with pending timers")
-    \cup (IF has /\ P # {} THEN
+    LET P == Pending(st)
+        M == MaybePending(st) IN
+       B((P # {} /\ ~has) \/ (P \cup M = {} /\ has), "C09", "next_expiry None/Some disagrees with pending timers")
+    \cup (IF has THEN
             B(~Lt(st.now, x), "C09", "next_expiry not after now")
        \cup B(\E t \in P : Lt(AddNs(Deadline(st.timers[t]), TickNs), x),
+              "C09", "next_expiry later than earliest deadline + 1 step")
+       \cup B(P = {} /\ M # {} /\ \A t \in M : Lt(AddNs(Deadline(st.timers[t]), TickNs), x),
               "C09", "next_expiry later than earliest deadline + 1 step")
           ELSE {})
 
@@ -110,7 +125,7 @@ AState(st, aid) == IF Has(st.actors, aid) THEN st.actors[aid].s ELSE "none"
 \*   slabrm  removal of a terminated child from its parent's slab (silent)
 Entry(k, id, aid, prep, tag) ==
   [k |-> k, id |-> id, aid |-> aid, prep |-> prep, tag |-> tag,
-   has |-> FALSE, val |-> 0, child |-> 0]
+   has |-> FALSE, val |-> 0, child |-> 0, grp |-> 0]
 
 ReadyKind(en) == en.k \in {"retcall", "fwdcall", "slabrm"} \/ (en.k = "call" /\ ~en.prep)
 
@@ -129,15 +144,16 @@ Fate(st, en) ==
          IF ~en.prep /\ AState(st, en.aid) = "prep" THEN "hold" ELSE "stay"
     [] OTHER -> "stay"
 
-\* Apply the silent effects of the first n entries of mainQ (all "hold"/"gone")
-SkipEffects(st, n) ==
-  LET pre == SubSeq(st.mainQ, 1, n)
-      HeldFor(a) == SelectSeq(pre, LAMBDA en : Fate(st, en) = "hold" /\ en.aid = a)
-      Rm(a) == {en.child : en \in {pre[i] : i \in 1..n} \cap
-                  {x \in {pre[i] : i \in 1..n} : x.k = "slabrm" /\ x.aid = a /\ Fate(st, x) = "gone"}}
+\* Apply the silent effects of the entries in `pre` (all "hold"/"gone") and
+\* continue with main queue `rest`
+Consume(st, pre, rest) ==
+  LET HeldFor(a) == SelectSeq(pre, LAMBDA en : Fate(st, en) = "hold" /\ en.aid = a)
+      Rm(a) == {x.child : x \in {y \in {pre[i] : i \in 1..Len(pre)} : y.k = "slabrm" /\ y.aid = a /\ Fate(st, y) = "gone"}}
       acts == [a \in DOMAIN st.actors |->
                  [st.actors[a] EXCEPT !.held = @ \o HeldFor(a), !.slab = @ \ Rm(a)]]
-  IN [st EXCEPT !.mainQ = SubSeq(st.mainQ, n + 1, Len(st.mainQ)), !.actors = acts]
+  IN [st EXCEPT !.mainQ = rest, !.actors = acts]
+
+SkipEffects(st, n) == Consume(st, SubSeq(st.mainQ, 1, n), SubSeq(st.mainQ, n + 1, Len(st.mainQ)))
 
 \* Length of the longest prefix of mainQ that is consumed silently
 SilentPrefix(st) ==
@@ -152,11 +168,16 @@ Settle(st) == SkipEffects(st, SilentPrefix(st))
 ToFront(st, P(_)) ==
   LET i == IdxOf(st.mainQ, P) IN
   IF i = 0 THEN [st |-> st, found |-> FALSE, ok |-> FALSE, en |-> Entry("none", 0, 0, FALSE, 0)]
-  ELSE LET ok == \A j \in 1..(i-1) : Fate(st, st.mainQ[j]) # "stay"
-           s1 == IF ok THEN SkipEffects(st, i - 1)
-                 ELSE [st EXCEPT !.mainQ = SubSeq(st.mainQ, i, Len(st.mainQ))]
-       IN [st |-> [s1 EXCEPT !.mainQ = Tail(s1.mainQ)], found |-> TRUE, ok |-> ok,
-           en |-> s1.mainQ[1]]
+  ELSE LET en == st.mainQ[i]
+           pre == SubSeq(st.mainQ, 1, i - 1)
+           \* owner drops made by one value drop (slab children) have no defined
+           \* mutual order: such sibling terminations may be passed over
+           Sib(x) == x.k = "term" /\ en.k = "term" /\ x.grp # 0 /\ x.grp = en.grp
+           keep == SelectSeq(pre, LAMBDA x : Fate(st, x) = "stay" /\ Sib(x))
+           gone == SelectSeq(pre, LAMBDA x : Fate(st, x) # "stay")
+           ok == \A j \in 1..(i-1) : Fate(st, pre[j]) # "stay" \/ Sib(pre[j])
+           rest == keep \o SubSeq(st.mainQ, i + 1, Len(st.mainQ))
+       IN [st |-> Consume(st, gone, rest), found |-> TRUE, ok |-> ok, en |-> en]
 
 \* An actor whose Prep->Ready flush is still owed visible held calls
 Flushing(st) == {a \in DOMAIN st.actors :
@@ -218,11 +239,16 @@ ApplySub(st, e) ==
       isCall == "aid" \in DOMAIN e
       aid == IF isCall THEN e.aid ELSE 0
       prep == IF isCall THEN e.prep ELSE FALSE
-      rec == [q |-> IF st.alive = "dead" THEN "void" ELSE e.q, s |-> "p",
+      \* Submitting once the Stakker's own Drop has completed is the documented
+      \* exclusion: after `droppedstakker`, or while the Stakker's fields (lazy,
+      \* idle and timer queues) are being dropped, which is after its drain loop.
+      void == st.alive = "dead" \/
+              (st.alive = "dropping" /\ st.dhq # << >> /\ st.dhq[Len(st.dhq)] \in {"lazy", "idle", "timer"})
+      rec == [q |-> IF void THEN "void" ELSE e.q, s |-> "p",
               aid |-> aid, prep |-> prep, tid |-> 0]
       s1 == [st EXCEPT !.items = Put(@, id, rec)]
       dup == B(Has(st.items, id), "C01", "harness: duplicate item id")
-  IN IF st.alive = "dead" THEN R(s1, dup)
+  IN IF void THEN R(s1, dup)
      ELSE IF e.q = "main"
      THEN R([s1 EXCEPT !.mainQ = Append(@, Entry(IF isCall THEN "call" ELSE "item",
                                                    id, aid, prep, Tag(st)))], dup)
@@ -231,14 +257,15 @@ ApplySub(st, e) ==
 
 \* ---- execution of an item
 NowBad(st, e, q) ==
-  IF q = "idle"
+  IF q = "idle" \/ (st.depth > 0 /\ st.lastq = "idle")
   THEN B(e.now # st.now /\ e.now # st.prev, "C15", "idle item saw a time that is neither previous nor current now")
   ELSE B(e.now # st.now, "C15", "item observed now() different from the greatest instant passed in")
 
 TimerExec(st, e, it) ==
   LET tid == it.tid
       tm == st.timers[tid]
-      pendPre == {i \in st.preRun : st.items[i].s = "p"}
+      s0q == Settle(st).mainQ
+      pendPre == {s0q[i].id : i \in {j \in 1..Len(s0q) : s0q[j].k \in {"item", "call"} /\ s0q[j].id \in st.preRun}}
       fixedShort == tm.kind = "fixed" /\ Short(tm)
       ordBad == IF fixedShort THEN
                   B(\E j \in 1..Len(st.fired) :
@@ -252,6 +279,7 @@ TimerExec(st, e, it) ==
                     "C19", "fixed timers with identical instant fired out of creation order")
                 ELSE {}
       bad ==    B(tm.s = "d", "C10", "deleted timer fired")
+           \cup B(tm.s = "q" /\ tm.touch # st.runNo, "C08", "expired timer not executed in the run that expired it")
            \cup B(tm.s = "f", "C08", "timer fired twice")
            \cup B(~st.inRun, "C07", "timer callback ran outside run()")
            \cup B(st.inRun /\ ~st.runAdv, "C15", "timers evaluated although time did not advance")
@@ -323,6 +351,8 @@ ApplyX(st, e) ==
                               !.lastq = IF top THEN "main" ELSE @,
                               !.phase = IF top THEN @ + 1 ELSE @]
        IN R(mark(s1), r.bad \cup twice \cup dead \cup gate \cup flushBad \cup NowBad(st, e, "main"))
+  ELSE IF it.q = "direct" THEN
+       R(mark(st), twice \cup dead \cup gate \cup NowBad(st, e, "main"))
   ELSE R(mark(st), dead \cup B(it.q = "void", "C01", "closure submitted after Stakker drop was executed"))
 
 \* end of an item's execution; for actor calls the lifecycle step follows
@@ -342,9 +372,10 @@ ApplyXE(st, e) ==
         ELSE R(s2, {})
 
 \* ---- a token (closure captures / message) was dropped
-ApplyDrop(st, e) ==
+ApplyDrop1(st, e) ==
   LET id == e.item IN
-  IF ~Has(st.items, id) THEN R([st EXCEPT !.tokdrop = @ \cup {id}], {}) ELSE
+  \* (a token of an unknown item is a stray of an earlier Stakker of this process)
+  IF ~Has(st.items, id) THEN R(st, {}) ELSE
   LET it == st.items[id]
       twice == B(id \in st.tokdrop, "C16", "value handed to the runtime dropped twice")
       s0 == [st EXCEPT !.tokdrop = @ \cup {id}]
@@ -382,10 +413,8 @@ ApplyDrop(st, e) ==
              \cup B(f.found /\ ~f.ok, "C02", "call discarded before reaching the front of the queue")
              \cup B(~legit, "C02", "call discarded although its target could have executed it"))
      ELSE IF isCall THEN
-        \* lazy/idle actor call discarded when it was taken from its queue
-        LET legit == IF it.prep THEN tgt # "prep" ELSE tgt = "zombie" IN
-        R([s1 EXCEPT !.lazyQ = RemoveId(@, id), !.idleQ = RemoveId(@, id)],
-          twice \cup early \cup B(~legit, "C02", "call discarded although its target could have executed it"))
+        \* direct apply on a Zombie: discarded on the spot
+        R(s1, twice \cup early \cup B(tgt # "zombie", "C02", "call discarded although its target could have executed it"))
      ELSE
         R([s1 EXCEPT !.mainQ = SelectSeq(@, LAMBDA en : ~(en.k = "item" /\ en.id = id)),
                      !.lazyQ = RemoveId(@, id), !.idleQ = RemoveId(@, id)],
@@ -393,12 +422,24 @@ ApplyDrop(st, e) ==
           \cup B(it.q = "main", "C01", "pending main-queue closure dropped without running")
           \cup B(it.q \in {"lazy", "idle"}, "C06", "pending lazy/idle closure dropped without running"))
 
+\* A termination by owner drop of an actor still in Prep is first seen through
+\* the discard of the calls held for it (it has no value to drop)
+ApplyDrop(st, e) ==
+  LET id == e.item IN
+  IF ~e.ran /\ Has(st.items, id) /\ st.alive = "live" /\ st.items[id].aid # 0
+     /\ ~st.items[id].prep /\ AState(st, st.items[id].aid) = "prep"
+     /\ \E i \in 1..Len(st.mainQ) : st.mainQ[i].k = "term" /\ st.mainQ[i].aid = st.items[id].aid
+  THEN LET r0 == ImplicitDropTerm(st, st.items[id].aid)
+           r1 == ApplyDrop1(r0.st, e)
+       IN R(r1.st, r0.bad \cup r1.bad)
+  ELSE ApplyDrop1(st, e)
+
 \* ---- run
 ApplyRun(st, e) ==
   LET t == e.t
       s1 == [st EXCEPT !.inRun = TRUE, !.prev = st.now, !.now = TMax(st.now, t), !.runT = t,
                        !.runIdle = e.idle, !.runAdv = Lt(st.now, t), !.nexec = 0,
-                       !.lastq = "none", !.fired = << >>,
+                       !.lastq = "none", !.fired = << >>, !.runNo = @ + 1,
                        !.preRun = {st.mainQ[i].id : i \in {j \in 1..Len(st.mainQ) : st.mainQ[j].k \in {"item", "call"}}}]
   IN R(s1, B(st.inRun, "C06", "harness: nested run"))
 
@@ -415,7 +456,7 @@ LeftoverBad(st) ==
 
 ApplyRunEnd(st, e) ==
   LET s0 == Settle(st)
-      late == {t \in Pending(s0) : Le(AddNs(Deadline(s0.timers[t]), TickNs), s0.runT)}
+      late == {t \in Unfired(s0) : s0.timers[t].s = "q" \/ Le(AddNs(Deadline(s0.timers[t]), TickNs), s0.runT)}
       fl == Flushing(s0)
       s1 == [s0 EXCEPT !.inRun = FALSE, !.depth = 0,
                        !.drainB = IF s0.draining THEN @ - 1 ELSE @]
@@ -430,7 +471,8 @@ ApplyRunEnd(st, e) ==
 ApplyTAdd(st, e) ==
   LET tid == e.tid
       isCall == "aid" \in DOMAIN e
-      tm == [kind |-> e.kind, eff |-> e.t, setAt |-> st.now, s |-> "p", item |-> e.item, ord |-> st.tord]
+      tm == [kind |-> e.kind, eff |-> e.t, setAt |-> e.now, s |-> "p", item |-> e.item, ord |-> st.tord,
+             touch |-> IF st.inRun THEN st.runNo ELSE -1]
       irec == [q |-> "timer", s |-> "p", aid |-> IF isCall THEN e.aid ELSE 0, prep |-> FALSE, tid |-> tid]
       s1 == [st EXCEPT !.timers = Put(@, tid, tm), !.tord = @ + 1, !.items = Put(@, e.item, irec),
                        !.drainB = IF st.draining THEN @ + IterBound(st, tm) ELSE @]
@@ -439,36 +481,56 @@ ApplyTAdd(st, e) ==
 ApplyTMac(st, e) ==
   \* timer_max!/timer_min!: update if the key is live, else add
   LET tid == e.tid
-      live == Has(st.timers, tid) /\ st.timers[tid].s = "p" /\ st.timers[tid].kind = e.kind
+      known == Has(st.timers, tid) /\ st.timers[tid].kind = e.kind
+      maybe == known /\ MaybeExpired(st, tid)
+      live == known /\ st.timers[tid].s = "p" /\ (e.upd \/ ~maybe)
   IN IF live
      THEN LET tm == st.timers[tid]
               better == IF e.kind = "max" THEN Lt(tm.eff, e.t) ELSE Lt(e.t, tm.eff)
-              s1 == IF better THEN [st EXCEPT !.timers[tid].eff = e.t, !.timers[tid].setAt = st.now] ELSE st
+              s1 == IF better THEN [st EXCEPT !.timers[tid].eff = e.t, !.timers[tid].setAt = e.now,
+                                              !.timers[tid].touch = IF st.inRun /\ e.kind = "min" THEN st.runNo ELSE @] ELSE st
           IN R(s1, B(~e.upd, "C10", "timer_max!/timer_min! replaced a timer whose key was still live"))
-     ELSE LET r == ApplyTAdd(st, [e EXCEPT !.e = "tadd"])
+     ELSE \* the old timer (if it was expired-and-queued) keeps its own identity: it is
+          \* re-registered under a derived id so that its callback is still accounted for
+          LET s0 == IF maybe THEN [st EXCEPT !.timers = Put(@, tid + 1000000, [st.timers[tid] EXCEPT !.s = "q", !.touch = st.runNo]),
+                                             !.items[st.timers[tid].item].tid = tid + 1000000]
+                    ELSE IF known /\ st.timers[tid].s = "q"
+                    THEN [st EXCEPT !.timers = Put(@, tid + 1000000, st.timers[tid]),
+                                    !.items[st.timers[tid].item].tid = tid + 1000000]
+                    ELSE st
+              r == ApplyTAdd(s0, [e EXCEPT !.e = "tadd"])
           IN R(r.st, r.bad \cup B(e.upd, "C10", "timer_max!/timer_min! updated through a stale key"))
 
 KeyLive(st, e) == e.tid > 0 /\ Has(st.timers, e.tid) /\ st.timers[e.tid].s = "p"
+KeyMaybe(st, e) == KeyLive(st, e) /\ MaybeExpired(st, e.tid)
+\* A key operation answered `false` for a maybe-expired timer: it was expired
+Expire(st, e) == [st EXCEPT !.timers[e.tid].s = "q", !.timers[e.tid].touch = st.runNo]
+KeyBad(st, e, what) ==
+  B(~KeyMaybe(st, e) /\ e.res # KeyLive(st, e), "C10", what)
 
 ApplyTUpd(st, e) ==
   LET live == KeyLive(st, e)
-      bad == B(e.res # live, "C10", "timer update result disagrees with whether the timer is pending")
+      bad == KeyBad(st, e, "timer update result disagrees with whether the timer is pending")
   IN IF ~live THEN R(st, bad)
+     ELSE IF KeyMaybe(st, e) /\ ~e.res THEN R(Expire(st, e), bad)
      ELSE LET tm == st.timers[e.tid]
               better == IF tm.kind = "max" THEN Lt(tm.eff, e.t) ELSE Lt(e.t, tm.eff)
-          IN R(IF better THEN [st EXCEPT !.timers[e.tid].eff = e.t, !.timers[e.tid].setAt = st.now] ELSE st, bad)
+          IN R(IF better THEN [st EXCEPT !.timers[e.tid].eff = e.t, !.timers[e.tid].setAt = e.now,
+                                         !.timers[e.tid].touch = IF st.inRun /\ tm.kind = "min" THEN st.runNo ELSE @] ELSE st, bad)
 
 ApplyTDel(st, e) ==
   LET live == KeyLive(st, e)
-      bad == B(e.res # live, "C10", "timer delete result disagrees with whether the timer is pending")
+      bad == KeyBad(st, e, "timer delete result disagrees with whether the timer is pending")
       s0 == [st EXCEPT !.deleting = 0]
   IN IF ~live THEN R(s0, bad)
+     ELSE IF KeyMaybe(st, e) /\ ~e.res THEN R(Expire(s0, e), bad)
      ELSE LET it == st.timers[e.tid].item IN
           R([s0 EXCEPT !.timers[e.tid].s = "d"],
             bad \cup B(e.res /\ st.items[it].s = "p", "C16", "deleted timer's closure was not released"))
 
 ApplyTAct(st, e) ==
-  R(st, B(e.res # KeyLive(st, e), "C10", "timer active result disagrees with whether the timer is pending"))
+  LET bad == KeyBad(st, e, "timer active result disagrees with whether the timer is pending") IN
+  IF KeyMaybe(st, e) /\ ~e.res THEN R(Expire(st, e), bad) ELSE R(st, bad)
 
 ApplyNWait(st, e) ==
   R(st, NexpBad(st, e.has, e.x)
@@ -530,7 +592,14 @@ ApplyVDrop(st, e) ==
   IF ~Has(st.actors, e.aid) THEN R(st, {}) ELSE
   LET a == st.actors[e.aid]
       r0 == IF a.s # "zombie" /\ st.alive = "live" THEN ImplicitDropTerm(st, e.aid) ELSE R(st, {})
-      s1 == [r0.st EXCEPT !.actors[e.aid].vdropped = TRUE]
+      \* the value's slab goes with it: its children lose their owner
+      kids == IF st.alive = "live" THEN a.slab ELSE {}
+      kseq == SetToSeq(kids)
+      terms == [i \in 1..Len(kseq) |-> [Entry("term", 0, kseq[i], FALSE, Tag(st)) EXCEPT !.grp = 1000 + e.aid]]
+      s1 == [r0.st EXCEPT !.actors = [x \in DOMAIN @ |->
+                                        IF x = e.aid THEN [@[x] EXCEPT !.vdropped = TRUE]
+                                        ELSE IF x \in kids THEN [@[x] EXCEPT !.own = @ - 1] ELSE @[x]],
+                          !.mainQ = @ \o SelectSeq(terms, LAMBDA t : r0.st.actors[t.aid].own = 1)]
   IN R(s1, r0.bad
            \cup B(a.vdropped, "C03", "actor value dropped twice")
            \cup B(a.running > 0, "C03", "actor value dropped while one of its methods is running")
@@ -669,7 +738,9 @@ ApplyLogCheck(st, e) ==
 
 \* ---- Stakker drop / end of case
 UnreleasedBad(st) ==
-  LET left == {i \in DOMAIN st.items : st.items[i].s = "p" /\ st.items[i].q # "void"} IN
+  LET heldIds == UNION {{st.actors[a].held[i].id : i \in 1..Len(st.actors[a].held)} : a \in DOMAIN st.actors}
+      \* calls held for an actor still in Prep live in that actor, not in the Stakker
+      left == {i \in DOMAIN st.items : st.items[i].s = "p" /\ st.items[i].q # "void" /\ i \notin heldIds} IN
      B(\E i \in left : st.items[i].q = "main", "C01", "pending main-queue closure not dropped when the Stakker was dropped")
   \cup B(left # {}, "C16", "pending closure not released when the Stakker was dropped")
 
@@ -699,6 +770,13 @@ Apply(st, e) ==
     [] e.e = "drop" -> ApplyDrop(st, e)
     [] e.e = "run" -> ApplyRun(st, e)
     [] e.e = "runend" -> ApplyRunEnd(st, e)
+    [] e.e = "apply" ->
+         \* direct Actor::apply: runs now (Ready), is held (Prep) or is discarded (Zombie)
+         LET rec == [q |-> "direct", s |-> "p", aid |-> e.aid, prep |-> FALSE, tid |-> 0]
+             s1 == [st EXCEPT !.items = Put(@, e.item, rec)]
+         IN IF AState(st, e.aid) = "prep"
+            THEN R([s1 EXCEPT !.actors[e.aid].held = Append(@, Entry("call", e.item, e.aid, FALSE, 0))], {})
+            ELSE R(s1, {})
     [] e.e = "tadd" -> ApplyTAdd(st, e)
     [] e.e = "tmac" -> ApplyTMac(st, e)
     [] e.e = "tupd" -> ApplyTUpd(st, e)
@@ -710,15 +788,15 @@ Apply(st, e) ==
     [] e.e = "nwaitmax" -> ApplyNWaitMax(st, e)
     [] e.e = "drain" ->
          R([st EXCEPT !.draining = TRUE,
-                      !.drainB = FoldFunctionOnSet(LAMBDA x, acc : acc + IterBound(st, x), 1, st.timers, Pending(st))], {})
+                      !.drainB = FoldFunctionOnSet(LAMBDA x, acc : acc + IterBound(st, x), 1, st.timers, Unfired(st))], {})
     [] e.e = "drainend" ->
          R([st EXCEPT !.draining = FALSE],
            B(st.drainB < 0, "C09", "follow-next_expiry loop needed more iterations than the bound")
-           \cup B(Pending(st) # {}, "C09", "follow-next_expiry loop did not fire every pending timer"))
+           \cup B(Unfired(st) # {}, "C09", "follow-next_expiry loop did not fire every pending timer"))
     [] e.e = "startinst" -> R(st, B(e.t # <<0, 0>>, "C15", "start_instant() changed"))
     [] e.e = "corrupt" -> R(st, {<<"C01", "captured data corrupted or misaligned">>, <<"C16", "captured data corrupted or misaligned">>, <<"C17", "captured data corrupted or misaligned">>})
     [] e.e = "reenter" -> R(st, {<<"C03", "actor method re-entered">>})
-    [] e.e = "dropstakker" -> R([st EXCEPT !.alive = "dropping"], {})
+    [] e.e = "dropstakker" -> R([Settle(st) EXCEPT !.alive = "dropping"], {})
     [] e.e = "droppedstakker" -> ApplyDropped(st)
     [] e.e = "acreate" -> ApplyACreate(st, e)
     [] e.e = "stop" -> ApplyDie(st, e, "stopped")
@@ -744,9 +822,12 @@ Apply(st, e) ==
     [] e.e = "logrec" -> ApplyLogRec(st, e)
     [] e.e = "logcall" -> ApplyLogCall(st, e)
     [] e.e = "logcheck" -> ApplyLogCheck(st, e)
-    [] e.e = "panic" -> R(st, {<<p, "panic: " \o e.msg>> : p \in st.props})
-    [] e.e = "crash" -> R(st, {<<p, "process aborted: " \o e.msg>> : p \in st.props})
-    [] e.e = "end" -> ApplyEnd(st)
+    [] e.e = "panic" -> R([st EXCEPT !.panicked = TRUE],
+                          IF e.harness THEN {<<"HARNESS", e.msg>>} ELSE {<<p, "panic: " \o e.msg>> : p \in st.props})
+    [] e.e = "crash" -> R([st EXCEPT !.panicked = TRUE], {<<p, "process aborted: " \o e.msg>> : p \in st.props})
+    [] e.e = "dh" -> R([st EXCEPT !.dhq = Append(@, IF Has(st.items, e.item) THEN st.items[e.item].q ELSE "none")], {})
+    [] e.e = "dhe" -> R([st EXCEPT !.dhq = IF @ = << >> THEN @ ELSE SubSeq(@, 1, Len(@) - 1)], {})
+    [] e.e = "end" -> IF st.panicked \/ ~e.leakcheck THEN R(st, {}) ELSE ApplyEnd(st)
     [] OTHER -> R(st, {})     \* keepown, keepret, refstorm, dh, dhe, nop, endcase, ...
 
 =============================================================================
